@@ -432,15 +432,15 @@ theorem g_hofPairs (c : ICtx) (a : Nat) : ∀ (ps : List (Item × Item)) (D : En
     exact g_hofPairs c a ps D _
 
 include hs hl hx hev in
-theorem g_hofKeys (c : ICtx) (a : Nat) : ∀ (xs : Seq) (D : Env) (acc : List (Item × List Int)),
-    Good (fun r => r.2 = D) (hofKeys cfg ev c a D acc xs)
+theorem g_hofKeys (ci : Bool) (c : ICtx) (a : Nat) : ∀ (xs : Seq) (D : Env) (acc : List (Item × List Int)),
+    Good (fun r => r.2 = D) (hofKeys cfg ev ci c a D acc xs)
   | [], D, acc => Good.ret _ rfl
   | x :: xs, D, acc => by
     simp only [hofKeys]
     apply Good.bnd (g_callFn cfg hs hl hx ev hev c D a _); intro r hr
     rw [hr]
     apply Good.bnd (Good.lift _); intro k _
-    exact g_hofKeys c a xs D _
+    exact g_hofKeys ci c a xs D _
 
 include hev in
 theorem g_evArith (op : AOp) (a b : Expr) (c : ICtx) (D : Env) (hD : EnvEq D c.lex) :
@@ -472,6 +472,10 @@ theorem g_step (e : Expr) (c : ICtx) (D : Env) (hD : EnvEq D c.lex) :
   | lit n => exact Good.ret _ rfl
   | dlit n => exact Good.ret _ rfl
   | elit n => exact Good.ret _ rfl
+  | slit cs => exact Good.ret _ rfl
+  | nanlit => exact Good.ret _ rfl
+  | inflit p => exact Good.ret _ rfl
+  | negzlit => exact Good.ret _ rfl
   | tt => exact Good.ret _ rfl
   | ff => exact Good.ret _ rfl
   | emp => exact Good.ret _ rfl
@@ -617,7 +621,7 @@ theorem g_step (e : Expr) (c : ICtx) (D : Env) (hD : EnvEq D c.lex) :
     · apply Good.bnd (hev s2 c D hD); intro ys hys
       rw [hys]
       exact g_hofPairs cfg hs hl hx ev hev c fa.1 _ D []
-  | sortK s f =>
+  | sortK ci s f =>
     simp only [step]
     apply Good.bnd (g_funArgCheck ev hev c D hD f 1); intro fa hfa
     rw [hfa]
@@ -625,7 +629,7 @@ theorem g_step (e : Expr) (c : ICtx) (D : Env) (hD : EnvEq D c.lex) :
     rw [hxs]
     split
     · exact Good.ret _ rfl
-    · apply Good.bnd (g_hofKeys cfg hs hl hx ev hev c fa.1 xs.1 D []); intro ks hks
+    · apply Good.bnd (g_hofKeys cfg hs hl hx ev hev ci c fa.1 xs.1 D []); intro ks hks
       split
       · exact Good.ret _ hks
       · exact Good.thr _
